@@ -77,6 +77,10 @@ class AvroWriter(AbstractWriter):
                 # a timestamp is stored as its UTC instant: one without a UTC form (year 0 or 10000) could be written,
                 # but no Avro reader can turn it back into a datetime, which makes the whole file unreadable
                 value.astimezone(timezone.utc)
+            elif isinstance(value, str):
+                # Avro text is UTF-8: text that cannot be encoded (a lone surrogate) passes the validator and fails in the
+                # encoder, when the fields in front of it are in the block already - refuse it before anything is written
+                value.encode("utf-8")
 
         self.writer.write(data)
 
